@@ -401,7 +401,12 @@ class Lexer():
                         i += len(hex_m.group(0))
                     else:
                         next_c = s[i+1:i+2]
-                        if next_c in _STRING_ESCAPES:
+                        if next_c == b'\r':
+                            # A line continuation with a CR or CRLF line end
+                            # denotes a newline, like one with LF.
+                            c = b'\n'
+                            i += 2 if s[i+2:i+3] == b'\n' else 1
+                        elif next_c in _STRING_ESCAPES:
                             c = _STRING_ESCAPES[next_c]
                             i += 1
 
